@@ -224,3 +224,20 @@ def siblings(ctx, rng, monitor, specs, late=None, **det):
         ctx.eq(monitor, got, want, sibling=name, use=label, history=list(log[-12:]), **det)
         log.append('%s.%s' % (name, label))
     return log
+
+
+# ---- caller-owned buffers -----------------------------------------------------------------------------
+def mutable_arg(ctx, monitor, f, m, want, **det):
+    """f(message) called with a bytearray the caller still owns: the result is the one for bytes(m), also when the very same buffer
+    is passed again, and the library leaves the buffer as it was.  A TypeError means the library refuses the type: nothing is judged."""
+    buf = bytearray(m)
+    r1 = call(f, buf)
+    if is_exc(r1, 'TypeError') and not is_exc(want):
+        ctx.notes['bytearray refused by the library (%s)' % monitor] += 1
+        return False
+    r2 = call(f, buf)
+    nb = lambda r: bytes(r) if isinstance(r, (bytes, bytearray)) else r
+    ctx.eq(monitor, nb(r1), want, arg='bytearray', **det)
+    ctx.eq(monitor, nb(r2), want, arg='the same bytearray passed again', **det)
+    ctx.eq(monitor, bytes(buf), bytes(m), arg='caller buffer left unchanged', **det)
+    return True
